@@ -83,6 +83,13 @@ def encoders(rng):
     encs["str_array_vs_string_series"] = lambda t, e, i: (np.array([sl[t]]), pd.Series([sl[t ^ e]]))
     encs["object_series_vs_str"] = lambda t, e, i: (pd.Series([sl[t]], dtype=object), sl[t ^ e])
     encs["series_to_numpy_vs_np_str"] = lambda t, e, i: (pd.Series([sl[t]]).to_numpy(), np.str_(sl[t ^ e]))
+    # one-element Series cut out of a label column: its index is the row number / row name, not 0
+    encs["series_row_slices"] = lambda t, e, i: (pd.Series([t], index=[i + 3]), pd.Series([t ^ e], index=["row%d" % i]))
+    # class names that look like numbers: different strings are different classes whatever they would parse to
+    encs["zero_padded_codes"] = mk({0: "1", 1: "01"})
+    encs["decimal_spellings"] = mk({0: "2", 1: "2.0"})
+    encs["stringified_missing"] = mk({0: "nan", 1: "None"})
+    encs["digit_string_vs_number"] = lambda t, e, i: (("7", "7") if e == 0 else ("7", 7)) if t else ((3, 3) if e == 0 else ("3", 3))
     encs["pair_substitution"] = lambda t, e, i: ((i % 4, i % 4) if e == 0 else (i % 4, (i + 1 + i % 2) % 4))
     return encs
 
